@@ -249,11 +249,12 @@ def colmap_obligations(rep):
     from mindsdb_sql.parser.ast import BinaryOperation, Identifier, Constant
     from mindsdb_sql.planner.plan_join import TableInfo
     fn = f'{PJ}:PlanJoinTablesQuery.join_condition_to_columns_map'
-    for side in ('model-left', 'model-right', 'neither', 'const', 'model-left-samename', 'model-right-samename'):
+    for side in ('model-left', 'model-right', 'neither', 'const', 'model-left-samename', 'model-right-samename', 'model-left-unqualified', 'model-right-unqualified'):
         samename = side.endswith('-samename')
-        side = side.replace('-samename', '')
+        unq = side.endswith('-unqualified')           # the data column is written without its table: no table is known for it, it is still the column the model column maps to
+        side = side.replace('-samename', '').replace('-unqualified', '')
 
-        def run(ex, side=side, samename=samename):
+        def run(ex, side=side, samename=samename, unq=unq):
             selfo = SymObj(None, 'self', prov='param')
             selfo.known_not_none = True
             model, table = SymObj({TableInfo}, 'model_table', prov='param'), SymObj({TableInfo}, 'data_table', prov='param')
@@ -261,8 +262,10 @@ def colmap_obligations(rep):
             a2 = SymObj({Identifier if side != 'const' else Constant}, 'arg2', prov='param')
             a1.fields.update(parts=ex.param_container(['m', 'mc']), alias=None, parentheses=False)
             if side != 'const':
-                a2.fields.update(parts=ex.param_container(['t', 'mc' if samename else 'tc']), alias=None, parentheses=False)
+                a2.fields.update(parts=ex.param_container((['t'] if not unq else []) + ['mc' if samename else 'tc']), alias=None, parentheses=False)
             owner = {'model-left': (model, table), 'model-right': (table, model), 'neither': (table, table), 'const': (model, None)}[side]
+            if unq:
+                owner = tuple(None if o_ is table else o_ for o_ in owner)
             selfo.fields['get_table_for_column'] = Stub(lambda ex_, a, k: owner[0] if a[0] is a1 else owner[1], 'get_table_for_column')
             node = SymObj({BinaryOperation}, 'cond', prov='param')
             node.fields.update(op='=', args=ex.param_container([a1, a2]), alias=None, parentheses=False)
@@ -298,7 +301,7 @@ def colmap_obligations(rep):
             v = pysym.Verdict(FAILED, bad) if bad else pysym.Verdict(PROVED, f'{len(outs)} path(s)')
         except (Unsupported, PathLimit) as e:
             v = pysym.Verdict(UNDECIDED, f'{type(e).__name__}: {e}')
-        _emit(rep, f'C14.colmap.{side}' + ('.same-name' if samename else ''), v, fn, 'an ON equality between a model column and a table column becomes {model column: table identifier} and is neutralised; other conditions are kept')
+        _emit(rep, f'C14.colmap.{side}' + ('.same-name' if samename else '') + ('.unqualified' if unq else ''), v, fn, 'an ON equality between a model column and a table column becomes {model column: table identifier} and is neutralised; other conditions are kept')
 
 
 CONTEXTS = {
@@ -501,6 +504,13 @@ def check(rep, tier):
     userdep.obligations(rep, tier, 'C14', which=('info',))
     from vlib import fetchdep
     fetchdep.obligations(rep, tier, 'C14')
+    # the rows a model is applied to are the rows of the joins before it: the preserved side of an outer join is fetched unrestricted (C08.semijoin.*)
+    from contracts import C08 as _C08
+    sub_ = type(rep)('C08', tier, _C08.LEVEL)
+    _C08.semijoin_obligations(sub_)
+    for x_ in sub_.unlisted_failures():
+        if hasattr(x_, 'status'):
+            rep.failed('C14.semijoin.' + x_.id.split('.', 2)[2], x_.engine, x_.detail, function=x_.function, clause=x_.clause, replay=x_.replay)
     rep.dropped = 'method bodies read with ast.parse; nested visitor closures executed by pysym'
     rep.assume('C13 walker contract (every comparison is shown to the collecting visitor)', 'execution semantics of ApplyPredictorStep as documented in steps.py')
     rep.trust('pysym executor')
